@@ -40,6 +40,7 @@ type chanSource struct {
 	finished   chan struct{} // sync: closed when the whole script has been emitted
 	produced   int64         // notifications handed to the observer (incremented before the call)
 	before     func(i int)   // called before notification i is emitted
+	tdPanic    bool          // the source's own teardown panics (panicVal 7)
 }
 
 func newChanSource(script []Tok, sync bool) *chanSource {
@@ -72,6 +73,9 @@ func (p *chanSource) Observable() ro.Observable[int] {
 				close(p.finished)
 			}
 		}
+		if p.tdPanic {
+			return func() { panic(panicVal{7}) }
+		}
 		return nil
 	})
 }
@@ -84,6 +88,10 @@ func guard(f func()) (escaped string) {
 		if r := recover(); r != nil {
 			if err, ok := r.(error); ok {
 				escaped = chanErr(renderErr(err))
+				// the source's teardown panic (panicVal 7), wrapped by every execFinalizer it crossed
+				if strings.Contains(err.Error(), "ro.Subscription: ") && strings.HasSuffix(err.Error(), "unexpected error: pv7") {
+					escaped = "tdpanic"
+				}
 			} else {
 				escaped = "panic(" + strings.ReplaceAll(fmt.Sprint(r), " ", "_") + ")"
 			}
@@ -269,13 +277,14 @@ func runChanCase(c *Case) string {
 	rec := &Recorder{}
 	setRecorder(rec)
 	defer setRecorder(nil)
+	tdp := c.get("tdp", "0") == "1"
 	switch c.get("op", "?") {
 	case "ToChannel":
-		return "res " + c.id + " " + runToChannel(rec, script, capacity, mode, cut, subCtx)
+		return "res " + c.id + " " + runToChannel(rec, script, capacity, mode, cut, subCtx, tdp)
 	case "ObserveOn":
-		return "res " + c.id + " " + runDetach(rec, false, script, capacity, mode, cut, subCtx)
+		return "res " + c.id + " " + runDetach(rec, false, script, capacity, mode, cut, subCtx, tdp)
 	case "SubscribeOn":
-		return "res " + c.id + " " + runDetach(rec, true, script, capacity, mode, cut, subCtx)
+		return "res " + c.id + " " + runDetach(rec, true, script, capacity, mode, cut, subCtx, false)
 	case "FromChannel":
 		return "res " + c.id + " " + runFromChannel(rec, script, capacity, c.get("close", "1") == "1", cut, subCtx)
 	case "Collect":
@@ -300,8 +309,9 @@ func driveHot(src *chanSource, script []Tok, cut int, esc *escapes, unsub func()
 	return false
 }
 
-func runToChannel(rec *Recorder, script []Tok, capacity int, mode string, cut int, subCtx context.Context) string {
+func runToChannel(rec *Recorder, script []Tok, capacity int, mode string, cut int, subCtx context.Context, tdp bool) string {
 	src := newChanSource(script, mode == "sync")
+	src.tdPanic = tdp
 	rd := newChanReader()
 	esc := &escapes{}
 	var sub ro.Subscription
@@ -354,8 +364,10 @@ func b2i(b bool) int {
 	return 0
 }
 
-func runDetach(rec *Recorder, upstream bool, script []Tok, capacity int, mode string, cut int, subCtx context.Context) string {
+func runDetach(rec *Recorder, upstream bool, script []Tok, capacity int, mode string, cut int, subCtx context.Context, tdp bool) string {
+	goroutines := runtime.NumGoroutine()
 	src := newChanSource(script, mode == "sync")
+	src.tdPanic = tdp
 	esc := &escapes{}
 	var obs ro.Observable[int]
 	if upstream {
@@ -383,6 +395,11 @@ func runDetach(rec *Recorder, upstream bool, script []Tok, capacity int, mode st
 		if !waitCh(returned) {
 			return "harness-timeout at=subscribe-return"
 		}
+		// the source runs on SubscribeOn's goroutine: an illegal suffix after the terminal is still
+		// being refused (drop hook) when Subscribe has already returned
+		if mode == "sync" && !waitCh(src.finished) {
+			return "harness-timeout at=finished"
+		}
 	} else {
 		subscribe()
 		if sub == nil {
@@ -409,6 +426,10 @@ func runDetach(rec *Recorder, upstream bool, script []Tok, capacity int, mode st
 		}
 	}
 	trace, drops, unh := recStrings(rec)
+	if tdp {
+		// the consumer goroutine ranges over the hand-off channel: it is gone iff stop() ran
+		return fmt.Sprintf("trace=%s drops=%s unh=%s escaped=%s gone=%d", trace, drops, unh, esc.String(), b2i(goroutinesBackTo(goroutines)))
+	}
 	return fmt.Sprintf("trace=%s drops=%s unh=%s escaped=%s", trace, drops, unh, esc.String())
 }
 
@@ -590,6 +611,15 @@ func genChan(tier string, seed int64, only string) []*Case {
 				add("kind", "chan", "op", "ToChannel", "cap", cs, "mode", "sync", "cut", "-", "sub", "7", "src", s)
 				for _, k := range cuts {
 					add("kind", "chan", "op", "ToChannel", "cap", cs, "mode", "hot", "cut", k, "sub", "7", "src", s)
+				}
+				// the source's own teardown panics: the release (close of the channel) must still happen
+				if len(script) <= 4 {
+					for _, k := range cuts[1:] {
+						add("kind", "chan", "op", "ToChannel", "cap", cs, "mode", "hot", "cut", k, "tdp", "1", "sub", "7", "src", s)
+						if capacity >= 1 {
+							add("kind", "chan", "op", "ObserveOn", "cap", cs, "mode", "hot", "cut", k, "tdp", "1", "sub", "7", "src", s)
+						}
+					}
 				}
 				if capacity >= 1 {
 					add("kind", "chan", "op", "ObserveOn", "cap", cs, "mode", "sync", "cut", "-", "sub", "7", "src", s)
